@@ -805,6 +805,23 @@ static ASMJIT_INLINE Error rw_handle_avx512(const BaseInst& inst, const InstDB::
   return Error::kOk;
 }
 
+// The register-or-memory information is stored per instruction id. Before an operand of THIS form is reported as replaceable
+// by memory make sure the form with that operand in memory exists (same instruction, all other operands unchanged).
+static ASMJIT_FAVOR_SIZE bool rw_mem_form_exists(Arch arch, const BaseInst& inst, const Operand_* operands, size_t op_count, uint32_t index, uint32_t size) noexcept {
+  Operand_ tmp[Globals::kMaxOpCount];
+  if (op_count > Globals::kMaxOpCount) {
+    return false;
+  }
+  for (size_t j = 0; j < op_count; j++) {
+    tmp[j] = operands[j];
+  }
+  Mem m = arch == Arch::kX64 ? x86::ptr(x86::rax) : x86::ptr(x86::eax);
+  m.set_size(size);
+  tmp[index] = m;
+  InstDB::Mode mode = arch == Arch::kX64 ? InstDB::Mode::kX64 : InstDB::Mode::kX86;
+  return validate(mode, inst, tmp, op_count, ValidationFlags::kEnableVirtRegs) == Error::kOk;
+}
+
 static ASMJIT_INLINE bool has_same_reg_type(const Reg* regs, size_t op_count) noexcept {
   ASMJIT_ASSERT(op_count > 0);
   RegType reg_type = regs[0].reg_type();
@@ -966,24 +983,29 @@ Error query_rw_info(Arch arch, const BaseInst& inst, const Operand_* operands, s
         i = it.next();
 
         OpRWInfo& op = out->_operands[i];
-        op.add_op_flags(RegM);
+        uint32_t rm_size = 0;
 
         switch (inst_rm_info.category) {
           case InstDB::RWInfoRm::kCategoryFixed:
-            op.set_rm_size(inst_rm_info.fixed_size);
+            rm_size = inst_rm_info.fixed_size;
             break;
           case InstDB::RWInfoRm::kCategoryConsistent:
-            op.set_rm_size(operands[i].x86_rm_size());
+            rm_size = operands[i].x86_rm_size();
             break;
           case InstDB::RWInfoRm::kCategoryHalf:
-            op.set_rm_size(rm_max_size / 2u);
+            rm_size = rm_max_size / 2u;
             break;
           case InstDB::RWInfoRm::kCategoryQuarter:
-            op.set_rm_size(rm_max_size / 4u);
+            rm_size = rm_max_size / 4u;
             break;
           case InstDB::RWInfoRm::kCategoryEighth:
-            op.set_rm_size(rm_max_size / 8u);
+            rm_size = rm_max_size / 8u;
             break;
+        }
+
+        if (rw_mem_form_exists(arch, inst, operands, op_count, i, rm_size)) {
+          op.add_op_flags(RegM);
+          op.set_rm_size(rm_size);
         }
       } while (it.has_next());
     }
